@@ -60,6 +60,11 @@ func (db *DB) Merge() error {
 	mergePath := db.mergePath()
 	// 如果存在上次 merge 的残留目录, 将其删除
 	if _, err := os.Stat(mergePath); err == nil {
+		// RemoveAll 不是原子操作: 必须先删除 merge 完成标识, 否则中途崩溃会留下带标识的残缺目录, 下次启动时被当作已完成的 merge 加载
+		markerName := datafile.GetFileName(mergePath, 0, datafile.MergeFinishedFileSuffix)
+		if err := os.Remove(markerName); err != nil && !os.IsNotExist(err) {
+			return err
+		}
 		if err := os.RemoveAll(mergePath); err != nil {
 			return err
 		}
